@@ -248,6 +248,14 @@ def scn_history(ctx):
             E = np.array(E, copy=True)
             B = np.array(B, copy=True)
             E[pos] = bad_e
+            bk = ch.draw(4, "bad_beta")
+            if bk == 1:  # the rejected energy sits on an angle below the tabulated minimum
+                B[pos] = t["B"][0] * (0.0, 0.5, 0.999)[ch.draw(3, "bad_beta_low")]
+                ctx.probes["rejected_energy_on_low_angle"] += 1
+            elif bk == 2:
+                B[pos] = t["B"][0]
+            elif bk == 3:
+                B[pos] = t["B"][-1]
             if B[pos] > t["B"][-1]:
                 B[pos] = t["B"][-1] * 0.5  # keep out of the corner the statement leaves open
             before = histsim.digest_args((E, B))
@@ -334,7 +342,7 @@ def scn_nodes(ctx):
 
 
 FAMILIES = {"history": scn_history, "nodes": scn_nodes}
-PLAN = {"quick": [("history", 9000, 50), ("nodes", 90, 3)], "thorough": [("history", 150000, 100), ("nodes", 3000, 10)]}
+PLAN = {"quick": [("history", 9000, 50), ("nodes", 90, 3)], "thorough": [("history", 300000, 200), ("nodes", 1500, 10)]}
 BUDGET = {"quick": 150, "thorough": 1500}
 
 META = {
